@@ -263,6 +263,16 @@ def _classes(case):
 GROUPS = [["zone"], ["lat", "dlon", "on_equator"], ["dist", "brg"], ["ell", "hspell"], ["adj"], ["bkind"]]
 
 
+def _fill_build(u):
+    lat = -79.0 + 162.0 * u[0]
+    if abs(lat) < 0.05:
+        lat = math.copysign(0.05, lat if lat != 0 else 1.0)
+    zone, r = S.u_pick(u[4], list(range(2, 60)))
+    ell, r = S.u_pick(r, ["grs80", "grs80", "wgs84", "ans", "intl24"])
+    return {"zone": zone, "lat": lat, "dlon": -3.5 + 7.0 * u[1], "dist": 10.0 ** (5.0 * u[2]), "brg": 360.0 * u[3], "ell": ell,
+            "adj": r < 0.4, "on_equator": False, "hspell": "lower", "bkind": "float"}
+
+
 def _sweep_lines(rnd):
     """The bearing circle (two lines), the first point's latitude, its offset from the central meridian and the distance (log-spaced
     1 m .. 100 km) walked on lattices; the other quantities fixed per line by the seed; same-zone and adjacent-zone second points."""
@@ -304,6 +314,12 @@ SUBCHECKS = [
     SubCheck("direct_axis_sweeps", check_direct_inverts, enumerate=S.sweeps(1415, _sweep_lines, 4000, 80000), nontrivial=_nt,
              classes=_classes, shards_quick=12, shards_thorough=16, matchers={"ends_on_equator": _ends_on_equator},
              rule="the same sweeps through vincinv_utm -> vincdir_utm (1 mm)"),
+    SubCheck("inverse_fill", check_inverse_definition, enumerate=S.fill(1424, 5, _fill_build, 20000, 400000), nontrivial=_nt,
+             classes=_classes, shards_quick=12, shards_thorough=16,
+             rule="low-discrepancy fill of latitude x offset from the central meridian x distance (log) x bearing x zone / ellipsoid / same or adjacent zone: 20 000 / 400 000 lines"),
+    SubCheck("direct_fill", check_direct_inverts, enumerate=S.fill(1425, 5, _fill_build, 20000, 400000), nontrivial=_nt,
+             classes=_classes, shards_quick=12, shards_thorough=16, matchers={"ends_on_equator": _ends_on_equator},
+             rule="the same fill (another seeded point set) through vincinv_utm -> vincdir_utm (1 mm)"),
     SubCheck("line_scale_factor_bounds", check_lsf_bounds, strategy=lines(), nontrivial=_nt, classes=_classes,
              quick=1200, thorough=60000, shards_quick=4, shards_thorough=16, seq_groups=GROUPS,
              rule="min k - 3e-7 <= lsf <= max k + 3e-7 and |lsf - Simpson mean| <= 5e-7 with k from the exact projection at 0, 1/4, 1/2, 3/4, 1"),
